@@ -42,8 +42,14 @@ type Case struct {
 	StrayBackup bool `json:"strayBackup,omitempty"`
 	// RelativeRoot: the shard manager's root directory is given relative to the working directory, as in the
 	// shipped configurations ("./data")
-	RelativeRoot bool     `json:"relativeRoot,omitempty"`
-	Actions      []Action `json:"actions"`
+	RelativeRoot bool `json:"relativeRoot,omitempty"`
+	// BlockedBackup: the names the next backups would be written to are taken by directories, so the backup
+	// copy made at idle unload fails inside the storage engine (as on a full or read-only volume)
+	BlockedBackup bool `json:"blockedBackup,omitempty"`
+	// Ghost: a further collection ("ghost") whose directory path is taken by a regular file; deletions may
+	// name it (delete action with index Collections); they fail and must leave the manager usable
+	Ghost   bool     `json:"ghost,omitempty"`
+	Actions []Action `json:"actions"`
 }
 
 func genCase(t *rapid.T) Case {
@@ -51,6 +57,12 @@ func genCase(t *rapid.T) Case {
 		IdleTimeout: rapid.SampledFrom([]int{0, 0, 0, 3600}).Draw(t, "timeout"), Backups: rapid.Bool().Draw(t, "backups")}
 	c.StrayBackup = c.Backups && rapid.IntRange(0, 2).Draw(t, "strayBackup") == 0
 	c.RelativeRoot = rapid.IntRange(0, 2).Draw(t, "relativeRoot") == 0
+	c.BlockedBackup = c.Backups && !c.StrayBackup && rapid.IntRange(0, 2).Draw(t, "blockedBackup") == 0
+	c.Ghost = rapid.IntRange(0, 3).Draw(t, "ghost") == 0
+	ndel := c.Collections
+	if c.Ghost {
+		ndel++
+	}
 	n := rapid.IntRange(1, 24).Draw(t, "nactions")
 	for i := 0; i < n; i++ {
 		var a Action
@@ -60,7 +72,7 @@ func genCase(t *rapid.T) Case {
 		case 3, 4:
 			a = Action{Kind: "finish", Arg: rapid.IntRange(0, 5).Draw(t, fmt.Sprintf("a%d", i))}
 		case 5:
-			a = Action{Kind: "delete", Arg: rapid.IntRange(0, c.Collections-1).Draw(t, fmt.Sprintf("a%d", i))}
+			a = Action{Kind: "delete", Arg: rapid.IntRange(0, ndel-1).Draw(t, fmt.Sprintf("a%d", i))}
 		default:
 			a = Action{Kind: "release", Arg: rapid.IntRange(0, 5).Draw(t, fmt.Sprintf("a%d", i))}
 		}
@@ -252,8 +264,32 @@ func execCase(c Case) (res vt.Result) {
 			cols[i].ShardIds = append(cols[i].ShardIds, fmt.Sprintf("shard-%d-%d", i, j))
 		}
 	}
+	if c.Ghost {
+		// the ghost collection has no shards; where its directory would be there is a regular file
+		os.MkdirAll(filepath.Join(root, cluster.USERCOLSDIR, "u"), 0755)
+		os.WriteFile(filepath.Join(root, cluster.USERCOLSDIR, "u", "ghost"), []byte("not a directory"), 0644)
+		cols = append(cols, models.Collection{UserId: "u", Id: "ghost", UserPlan: plan, IndexSchema: models.IndexSchema{"n": {Type: models.IndexTypeInteger}}})
+	}
+	if c.BlockedBackup {
+		now := time.Now().Unix()
+		for _, col := range cols[:c.Collections] {
+			for _, sh := range col.ShardIds {
+				d := filepath.Join(root, cluster.USERCOLSDIR, col.UserId, col.Id, sh)
+				os.MkdirAll(d, 0755)
+				for ts := now - 2; ts <= now+90; ts++ {
+					base := filepath.Join(d, fmt.Sprintf("%d-sharddb.bbolt.backup", ts))
+					os.Mkdir(base, 0755)
+					os.Mkdir(base+".tmp", 0755)
+				}
+				// (the directories look like backups from the future; a name without a time stamp that sorts
+				// last makes the backup run all the same)
+				os.WriteFile(filepath.Join(d, "zz-stray.backup"), []byte("x"), 0644)
+			}
+		}
+		rec.Count("cases_with_blocked_backups", 1)
+	}
 	if c.StrayBackup {
-		for _, col := range cols {
+		for _, col := range cols[:c.Collections] {
 			for _, sh := range col.ShardIds {
 				d := filepath.Join(root, cluster.USERCOLSDIR, col.UserId, col.Id, sh)
 				os.MkdirAll(d, 0755)
@@ -314,10 +350,11 @@ func execCase(c Case) (res vt.Result) {
 				close(r.finish)
 			}
 		case "delete":
-			d := &delRun{col: a.Arg, done: make(chan struct{})}
+			d := &delRun{col: a.Arg % len(cols), done: make(chan struct{})}
 			w.mu.Lock()
 			w.deletes = append(w.deletes, d)
 			w.mu.Unlock()
+			a.Arg %= len(cols)
 			w.logf("deletion of %s starts", cols[a.Arg].Id)
 			go w.runDelete(sm, cols[a.Arg], d)
 			ops++
